@@ -25,6 +25,7 @@ mod c02;
 mod c03;
 mod c04;
 mod c06;
+mod c07;
 mod c08;
 mod c10;
 mod c12;
@@ -74,6 +75,7 @@ fn prop_fn(name: &str) -> Option<fn(&mut rep::Ctx)> {
         "c03" => c03::run,
         "c04" => c04::run,
         "c06" => c06::run,
+        "c07" => c07::run,
         "c08" => c08::run,
         "c10" => c10::run,
         "c12" => c12::run,
